@@ -12,6 +12,7 @@ import (
 	"sort"
 	"strings"
 	"sync"
+	"syscall"
 	"time"
 
 	"github.com/gotid/god/lib/fs"
@@ -313,6 +314,18 @@ func (l *RotateLogger) init() error {
 	}
 
 	fs.CloseOnExec(l.fp)
+
+	// 备份文件名（压缩时再加 .gz）必须是文件系统接受的文件名，
+	// 否则第一次轮换的 os.Rename 就会失败，此后的日志全部丢失：宁可一开始就拒绝这个配置。
+	probe := l.backup
+	if l.compress {
+		probe += gzipExt
+	}
+	if _, err := os.Lstat(probe); errors.Is(err, syscall.ENAMETOOLONG) {
+		l.fp.Close()
+		l.fp = nil
+		return err
+	}
 
 	return nil
 }
